@@ -1062,17 +1062,30 @@ class DiskRefsContainer(RefsContainer):
                 # reread cached refs from disk, while holding the lock
                 packed_refs = self.get_packed_refs().copy()
 
+                peeled_refs = (
+                    dict(self._peeled_refs) if self._peeled_refs is not None else None
+                )
+
                 for ref, target in new_refs.items():
                     # sanity check
                     if ref == HEADREF:
                         raise ValueError("cannot pack HEAD")
+
+                    if (
+                        peeled_refs is not None
+                        and ref in packed_refs
+                        and packed_refs[ref] != target
+                    ):
+                        # The peeled value recorded for the old target does
+                        # not describe the new one.
+                        peeled_refs.pop(ref, None)
 
                     if target is not None:
                         packed_refs[ref] = target
                     else:
                         packed_refs.pop(ref, None)
 
-                write_packed_refs(f, packed_refs, self._peeled_refs)
+                write_packed_refs(f, packed_refs, peeled_refs)
         finally:
             # Do not stat the path and associate that identity with the data
             # just written: another writer can replace packed-refs after the
